@@ -23,7 +23,29 @@ WRAPPED = ["pwc", "pwc_nn", "pwc_prior", "gnb", "lr", "sgdc"]
 NATIVE_PF = {"gnb", "sgdc"}
 
 
-def make_clf(name, classes, seed):
+def label_name(c):
+    return f"c{int(c):02d}"
+
+
+def enc_labels(y, sc):
+    """NaN-coded numeric labels -> what the caller hands over (class names / None in string-label mode)."""
+    y = np.asarray(y, dtype=float)
+    if not sc.get("str_labels"):
+        return y
+    out = np.full(y.shape, None, dtype=object)
+    lab = ~np.isnan(y)
+    out[lab] = [label_name(v) for v in y[lab]]
+    return out
+
+
+def make_clf(name, classes, seed, str_labels=False):
+    clf = _make_clf(name, classes, seed)
+    if str_labels:
+        clf.set_params(classes=[label_name(c) for c in classes], missing_label=None)
+    return clf
+
+
+def _make_clf(name, classes, seed):
     from sklearn.linear_model import LogisticRegression, SGDClassifier
     from sklearn.naive_bayes import GaussianNB
 
@@ -77,7 +99,7 @@ class RefModel:
         self.prefit_unknown = False  # emulated partial_fit impossible: fitted outside the wrapper
 
     def _clf(self):
-        return make_clf(self.sc["clf"], self.sc["classes"], self.sc["clf_seed"])
+        return make_clf(self.sc["clf"], self.sc["classes"], self.sc["clf_seed"], self.sc.get("str_labels"))
 
     def init(self):
         pre = self.sc.get("prefit")
@@ -149,7 +171,7 @@ class RefModel:
         clf = self._clf()
         for kind, t in self.cur:
             Xt = self.X[t["idx"]]
-            yt = np.array(t["y"], dtype=float)
+            yt = enc_labels(np.array(t["y"], dtype=float), self.sc)
             wt = None if t["w"] is None else np.array(t["w"], dtype=float)
             if kind in ("fit", "prefit"):
                 clf.fit(Xt, yt, sample_weight=wt) if wt is not None else clf.fit(Xt, yt)
@@ -175,7 +197,7 @@ class C19Check(Check):
         "indices. Distinct by (wrapped classifier, flags, op-kind multiset, probes)."
     )
     fault_kinds = ["repeated_indices", "label_override", "weight_override", "base_restart", "documented_refusal"]
-    probes_expected = ["partial_fit_from_base_after_divergence", "emulated_partial_fit", "native_partial_fit", "speedup_twin_compared", "prediction_compared", "refusal_predicted", "unique_replaced_sample", "partial_precompute", "refused_missing_kernel_entries", "speed_up_with_prefitted_clf"]
+    probes_expected = ["partial_fit_from_base_after_divergence", "emulated_partial_fit", "native_partial_fit", "speedup_twin_compared", "prediction_compared", "refusal_predicted", "unique_replaced_sample", "partial_precompute", "refused_missing_kernel_entries", "speed_up_with_prefitted_clf", "string_class_labels"]
     assumptions = [
         "probabilities are compared to 1e-9 relative (a pre-computed kernel block and a freshly computed one may differ in the last bits); hard predictions only where the top-two margin exceeds that tolerance",
         "exception types of refusals are not judged, only that the wrapper refuses exactly when the model does",
@@ -236,6 +258,8 @@ class C19Check(Check):
         if not any(o["op"] == "precompute" for o in ops) and g.chance(0.5):
             ops.insert(g.randrange(len(ops) + 1), {"op": "precompute"})
         sc["ops"] = ops
+        # a fifth of the runs: class names are strings, a missing label is None (wrapper, classifier, overrides)
+        sc["str_labels"] = rng.fork("str").chance(0.2)
         return sc
 
     # ------------------------------------------------------------------
@@ -245,7 +269,8 @@ class C19Check(Check):
         X = np.array(sc["X"], dtype=float)
         y = np.array([np.nan if v is None else v for v in sc["y"]], dtype=float)
         w = None if sc.get("w") is None else np.array(sc["w"], dtype=float)
-        clf = make_clf(sc["clf"], sc["classes"], sc["clf_seed"])
+        clf = make_clf(sc["clf"], sc["classes"], sc["clf_seed"], sc.get("str_labels"))
+        y = enc_labels(y, sc)
         pre = sc.get("prefit")
         if pre is not None:
             idx = pre["idx"]
@@ -260,6 +285,7 @@ class C19Check(Check):
             ignore_partial_fit=f["ignore_partial_fit"],
             enforce_unique_samples=f["enforce_unique_samples"],
             use_speed_up=speed_up,
+            **({"missing_label": None} if sc.get("str_labels") else {}),
         )
 
     def _apply(self, wrp, op):
@@ -271,7 +297,7 @@ class C19Check(Check):
             wrp.precompute(fi, pi, fit_params=op.get("fit_params", "all"), pred_params=op.get("pred_params", "all"))
             return None
         idx = np.array(op["idx"], dtype=int)
-        y = None if op.get("y") is None else np.array([np.nan if v is None else v for v in op["y"]], dtype=float)
+        y = None if op.get("y") is None else enc_labels(np.array([np.nan if v is None else v for v in op["y"]], dtype=float), self._sc)
         w = None if op.get("w") is None else np.array(op["w"], dtype=float)
         if name == "fit":
             wrp.fit(idx, y=y, sample_weight=w, set_base_clf=bool(op.get("set_base")))
@@ -284,6 +310,9 @@ class C19Check(Check):
     def _run_world(self, sc, speed_up, ctx, judge):
         """Returns the list of (op index, kind, value) observations."""
         subj = "IndexClassifierWrapper"
+        self._sc = sc
+        if judge and sc.get("str_labels"):
+            ctx.probe("string_class_labels")
         cond = {"clf": sc["clf"], "speed_up": bool(speed_up), "unique": sc["flags"]["enforce_unique_samples"], "native_partial_fit": sc["clf"] in NATIVE_PF and not sc["flags"]["ignore_partial_fit"]}
         model = RefModel(sc)
         obs = []
